@@ -24,7 +24,9 @@ int InitJac(SUNMatrix) { return 0; }
 // ---------------------------------------------------------------- choice machinery
 static std::vector<int> g_prefix, g_taken, g_arity;
 static size_t g_pos;
+static bool g_frozen = false;   // second Solve of an execution: the integrator always succeeds, nothing is recorded
 static int choose(int n) {
+    if (g_frozen) return 0;
     int c = g_pos < g_prefix.size() ? g_prefix[g_pos] : 0;
     if (c >= n) { fprintf(stderr, "HARNESS: choice %d out of range %d at %zu\n", c, n, g_pos); exit(3); }
     g_taken.push_back(c); g_arity.push_back(n); g_pos++;
@@ -128,6 +130,19 @@ static bool run_once(double dt, const double y0) {
     for (int i = 0; i < NEQUATIONS; i++) y[i] = y0;
     naunet.Init(1, 1e-20, 1e-5, 500);
     int ret = naunet.Solve(y, dt, &data);
+    // a second interval on the same object, whatever the first one did: with a well-behaved integrator it must
+    // simply integrate dt again from the state it is given
+    Mock keep = M;
+    g_frozen = true;
+    double y2[NEQUATIONS];
+    const double y0b = 0.75 * dt;
+    for (int i = 0; i < NEQUATIONS; i++) y2[i] = y0b;
+    memset(&M, 0, sizeof(M)); M.tout_monotone = true; M.last_tout = -1.0;
+    int ret2 = naunet.Solve(y2, dt, &data);
+    bool second_ok = ret2 == NAUNET_SUCCESS;
+    for (int i = 0; i < NEQUATIONS; i++) if (!(fabs((y2[i] - y0b) - dt) <= 1e-9 * dt)) second_ok = false;
+    g_frozen = false;
+    M = keep;
     naunet.Finalize();   // closes the memstream: verif_log_buf/len are final now
     std::string log = verif_log_buf ? std::string(verif_log_buf, verif_log_len) : std::string();
     free(verif_log_buf); verif_log_buf = NULL; verif_log_len = 0;
@@ -150,6 +165,7 @@ static bool run_once(double dt, const double y0) {
         char line[64]; snprintf(line, sizeof line, "    y[0] = %13.7e;", y0);
         if (!why && log.find(line) == std::string::npos) { snprintf(buf, sizeof buf, "returned FAIL but the error record lacks the initial state line '%s'", line); why = buf; }
     } else { snprintf(buf, sizeof buf, "Solve returned %d (neither SUCCESS nor FAIL)", ret); why = buf; }
+    if (!why && !second_ok) { snprintf(buf, sizeof buf, "a second Solve on the same object (integrator always succeeding) returned %d and integrated %.17g of the requested %.17g", ret2, y2[0] - y0b, dt); why = buf; }
     if (!why && M.calls_after_fatal > 0) { snprintf(buf, sizeof buf, "CVode called %d more time(s) after an unrecoverable flag", M.calls_after_fatal); why = buf; }
     if (!why && !M.tout_monotone) { snprintf(buf, sizeof buf, "tout not strictly increasing inside a level"); why = buf; }
     if (!why && M.fatal_seen && ret != NAUNET_FAIL) { snprintf(buf, sizeof buf, "an unrecoverable flag was returned by the integrator but Solve returned %d", ret); why = buf; }
